@@ -93,6 +93,8 @@ pub struct Sim {
     pub log: Option<Vec<String>>,
     /// counter behind the random-id seam (write ids of output files)
     pub ids_issued: u64,
+    /// messages of the panics raised during the run (first few), for classification
+    pub panics: Vec<String>,
 }
 
 thread_local! {
@@ -135,6 +137,7 @@ pub fn install(policy: Policy, seed: u64, replay: Vec<u32>, step_budget: u64, lo
         abort: None,
         log: if log { Some(vec![]) } else { None },
         ids_issued: 0,
+        panics: vec![],
     };
     SIM.with(|s| *s.borrow_mut() = Some(sim));
 }
@@ -158,6 +161,18 @@ pub fn probe_n(k: &str, n: u64) {
 pub fn probe_max(k: &str, n: u64) {
     try_with(|s| s.probes.max(k, n));
 }
+/// Called from the panic hook: remembers the message of a panic raised during the current run.
+pub fn note_panic(msg: String) {
+    let _ = try_with(|s| {
+        if s.panics.len() < 8 {
+            s.panics.push(msg);
+        }
+    });
+}
+pub fn panic_notes() -> Vec<String> {
+    try_with(|s| s.panics.clone()).unwrap_or_default()
+}
+
 pub fn set_tag(t: &str) {
     try_with(|s| {
         if !s.tag.split('+').any(|x| x == t) {
